@@ -278,7 +278,7 @@ func runC13(e *Env) error {
 				}
 				prevTrimRight := false
 				for _, pc := range seq {
-					wsL, wsR := pick(e.Rng, []string{" ", "  \n ", "\t"}), pick(e.Rng, []string{" ", " \n  ", "\t\t"})
+					wsL, wsR := pick(e.Rng, []string{" ", "  \n ", "\t", ""}), pick(e.Rng, []string{" ", " \n  ", "\t\t", "", ""})
 					dl := (kind == 0 && pc.open == "{{" || kind == 2 && pc.open == "{%") && e.Rng.Intn(3) > 0
 					dr := (kind == 1 && pc.close == "}}" || kind == 3 && pc.close == "%}") && e.Rng.Intn(3) > 0
 					// text before the tag: "t" + wsL ; after: wsR + text
